@@ -67,6 +67,27 @@ var c19Unmapped = map[string]func(r *rand.Rand) any{
 	"name":                   func(r *rand.Rand) any { return "Foo" },
 	"replace-type":           func(r *rand.Rand) any { return []any{"a.T=b.U"} },
 	"issue-845-fix":          func(r *rand.Rand) any { return true },
+	// the rest of the v2 vocabulary (every key the v2 struct declares): none of them has a v3 counterpart; in particular
+	// a leftover `structname` (deprecated in v2 already) never becomes the v3 `structname`, which comes from `mockname`
+	"structname":                    func(r *rand.Rand) any { return pick(r, []string{"LegacyMock", "Old{{.InterfaceName}}"}) },
+	"srcpkg":                        func(r *rand.Rand) any { return "example.com/m/legacy" },
+	"output":                        func(r *rand.Rand) any { return "./legacy_mocks" },
+	"packageprefix":                 func(r *rand.Rand) any { return "legacy_" },
+	"note":                          func(r *rand.Rand) any { return "a note" },
+	"profile":                       func(r *rand.Rand) any { return "cpu.prof" },
+	"cpuprofile":                    func(r *rand.Rand) any { return "cpu.prof" },
+	"print":                         func(r *rand.Rand) any { return r.Intn(2) == 0 },
+	"dry-run":                       func(r *rand.Rand) any { return r.Intn(2) == 0 },
+	"exported":                      func(r *rand.Rand) any { return r.Intn(2) == 0 },
+	"fail-on-missing":               func(r *rand.Rand) any { return r.Intn(2) == 0 },
+	"inpackage-suffix":              func(r *rand.Rand) any { return r.Intn(2) == 0 },
+	"include-auto-generated":        func(r *rand.Rand) any { return r.Intn(2) == 0 },
+	"resolve-type-alias":            func(r *rand.Rand) any { return r.Intn(2) == 0 },
+	"disable-config-search":         func(r *rand.Rand) any { return r.Intn(2) == 0 },
+	"disable-func-mocks":            func(r *rand.Rand) any { return r.Intn(2) == 0 },
+	"disable-deprecation-warnings":  func(r *rand.Rand) any { return r.Intn(2) == 0 },
+	"disabled-deprecation-warnings": func(r *rand.Rand) any { return []any{"issue-845"} },
+	"version":                       func(r *rand.Rand) any { return false },
 }
 
 var c19Strings = []string{"plain", "", "with space", "a: b", "#hash", "{{.InterfaceName}}Mock", "yes", "~", "1e3", "*star", "- dash", "é→ü", "\"quoted\"", "'single'", "tab\there",
